@@ -566,6 +566,14 @@ fn run_scenario_here(sc: &Scenario, strategy: Option<Strategy>, order: Option<&[
                 None => {
                     let n_threads = sc.threads.len();
                     let sched = Sched::new(strategy.clone().unwrap(), sched_seed, n_threads, 20_000, false);
+                    if sc.property == "C12" && sc.seed % 2 == 0 {
+                        // half of the outage scenarios: condition variables may wake up early without a notification
+                        sched.set_early_timed_wakeups(crate::rng::derive(
+                            sc.seed,
+                            "early-wake",
+                            sc.down_at_rpc.unwrap_or(0) ^ (sc.down_at_bs.unwrap_or(0) << 20),
+                        ));
+                    }
                     sched.name_mutex(ctx.reachable.0.id(), "bitcoind_reachable");
                     sched.name_mutex(ctx.reachable.1.id(), "bitcoind_reachable_cv");
                     sched.name_mutex(ctx.dbm_mutex_id, "dbm");
@@ -595,6 +603,7 @@ fn run_scenario_here(sc: &Scenario, strategy: Option<Strategy>, order: Option<&[
                         })));
                     }
                     let shared_replies: Arc<Mutex<Vec<Vec<String>>>> = Arc::new(Mutex::new(replies.clone()));
+                    let served_unreachable: Arc<Mutex<Vec<String>>> = Arc::new(Mutex::new(vec![]));
                     let mut handles = vec![];
                     for (ti, ops) in sc.threads.iter().enumerate().skip(1) {
                         let api = ctx.api.clone();
@@ -603,6 +612,9 @@ fn run_scenario_here(sc: &Scenario, strategy: Option<Strategy>, order: Option<&[
                         let sched2 = sched.clone();
                         let ops = ops.clone();
                         let out = shared_replies.clone();
+                        let reachable2 = ctx.reachable.clone();
+                        let served2 = served_unreachable.clone();
+                        let judge_unavailable = sc.property == "C12";
                         let aborts2 = aborts.clone();
                         handles.push(
                             std::thread::Builder::new()
@@ -620,7 +632,29 @@ fn run_scenario_here(sc: &Scenario, strategy: Option<Strategy>, order: Option<&[
                                                     n += 1;
                                                 }
                                             }
+                                            // C12: a public request that finds the node flagged unreachable is answered
+                                            // 'unavailable'. The flag can only come back after the node has answered a call,
+                                            // so a request made while it is down, during which the node stays down and serves
+                                            // nothing, cannot have found it up at any instant.
+                                            let is_request = matches!(op, Op::Register { .. } | Op::Add { .. } | Op::Get { .. } | Op::SubInfo { .. });
+                                            let before = if judge_unavailable && is_request {
+                                                let flag = *reachable2.0.lock().unwrap_or_else(|e| e.into_inner());
+                                                let st = node2.lock();
+                                                Some((flag, st.faults.down, st.served_calls))
+                                            } else {
+                                                None
+                                            };
                                             let r = exec_plain(&req2, &api, &node2, op);
+                                            if let Some((flag, down, served)) = before {
+                                                let st = node2.lock();
+                                                if !flag && down && st.faults.down && st.served_calls == served && r != "err Unavailable" {
+                                                    served2.lock().unwrap_or_else(|e| e.into_inner()).push(format!(
+                                                        "{} was answered '{}' although the node was flagged unreachable before the request and answered no call until it returned",
+                                                        op.kind(),
+                                                        r.chars().take(60).collect::<String>()
+                                                    ));
+                                                }
+                                            }
                                             out.lock().unwrap_or_else(|e| e.into_inner())[ti][i] = r;
                                         }
                                     }));
@@ -683,6 +717,13 @@ fn run_scenario_here(sc: &Scenario, strategy: Option<Strategy>, order: Option<&[
                     teos_common::verif::set_sync_hooks(None);
                     crate::hooks::set_rpc_yield(None);
                     replies = shared_replies.lock().unwrap_or_else(|e| e.into_inner()).clone();
+                    if !served_unreachable.lock().unwrap_or_else(|e| e.into_inner()).is_empty() {
+                        unavailable_ok = false;
+                    }
+                    let early = sched.early_wakeups_fired();
+                    if early > 0 {
+                        *node.lock().fired.entry("F10_condvar_woken_early_without_notification").or_insert(0) += early;
+                    }
                     sched_res = Some(sr);
                 }
             }
